@@ -53,6 +53,7 @@ pub fn gen(rng: &mut Rng, tier: Tier, idx: u64) -> Case {
     let mut c = Case::new("C02", "c02-lengths", sw.fam, Front::B);
     let mut a = gen::gen_packet(rng, &sw);
     maybe_retarget(rng, &sw, &mut a, if tier == Tier::Thorough { 24 } else { 60 });
+    gen::maybe_retarget_props(rng, sw.fam, &mut a, 40);
     let len = refcodec::ref_body_len(&a, sw.fam) + 5;
     c.packets = vec![a];
     let ep = *rng.pick(&[0u64, 100, 400]);
